@@ -652,13 +652,27 @@ func (o *Own) callResult(v ssa.Value, call *ssa.Call, idx int) {
 	}
 	interesting := isSliceOrMap(v.Type())
 	callee := o.resolveCallee(cc)
-	if callee != nil && !o.inFuncs[callee] && freshReturning[extName(callee)] {
+	// an instantiation of a generic function defined outside the analysed code is external, whatever set the
+	// synthetic wrapper itself was collected into
+	external := callee != nil && !o.inFuncs[callee]
+	if callee != nil && callee.Origin() != nil && !o.inFuncs[callee.Origin()] {
+		external = true
+	}
+	if external && aliasReturning[extName(callee)] && len(cc.Args) > 0 {
+		// result shares (or may share) the backing array of its first argument: same class, same contents
+		if interesting {
+			o.setCls(v, o.cls[cc.Args[0]], "result of "+extName(callee)+" (may share its argument's array): "+o.valDesc(cc.Args[0]))
+			o.flow(cc.Args[0], v)
+		}
+		return
+	}
+	if external && freshReturning[extName(callee)] {
 		if interesting {
 			o.setCls(v, Fresh, "result of "+extName(callee)+" (always a new array)")
 		}
 		return
 	}
-	if callee == nil || !o.inFuncs[callee] {
+	if callee == nil || external {
 		if interesting {
 			name := "dynamic call"
 			if callee != nil {
@@ -688,6 +702,12 @@ var externalMutators = map[string][]int{
 	"slices.Replace": {0}, "slices.Grow": {}, "slices.Clip": {},
 	"io.ReadFull": {1}, "io.ReadAtLeast": {1}, "encoding/binary.Read": {2},
 	"math/rand.Shuffle": {}, "encoding/json.Unmarshal": {1},
+}
+
+// aliasReturning: library functions whose result may be (a window of) the array of their first argument.
+var aliasReturning = map[string]bool{
+	"slices.Grow": true, "slices.Clip": true, "slices.Insert": true, "slices.Delete": true, "slices.DeleteFunc": true,
+	"slices.Compact": true, "slices.CompactFunc": true, "slices.Replace": true,
 }
 
 // freshReturning: library functions whose result is always newly allocated.
